@@ -7,13 +7,13 @@ import (
 	"verif/harness/hlib"
 )
 
-func suiteJ(s tls.VerifSuiteInfo) map[string]any {
+func suiteJ(s tls.VerifRecordSuite) map[string]any {
 	return map[string]any{"id": int(s.ID), "keyLen": s.KeyLen, "macLen": s.MacLen, "ivLen": s.IVLen, "flags": s.Flags,
 		"ecdhe": s.ECDHE, "ecsign": s.ECSign, "tls12only": s.TLS12Only, "sha384": s.SHA384, "kind": s.Kind,
 		"bs": s.BlockSize, "expl": s.ExplicitNonce, "tag": s.Overhead, "mac": s.MacSize}
 }
 
-func suitesJ(l []tls.VerifSuiteInfo) []any {
+func suitesJ(l []tls.VerifRecordSuite) []any {
 	out := []any{}
 	for _, s := range l {
 		out = append(out, suiteJ(s))
@@ -33,12 +33,12 @@ func init() {
 			tls.EnableWeakCiphers()
 		}
 		t13 := []any{}
-		for _, s := range tls.VerifCipherSuitesTLS13() {
+		for _, s := range tls.VerifRecordCipherSuitesTLS13() {
 			t13 = append(t13, map[string]any{"id": int(s.ID), "keyLen": s.KeyLen, "tag": s.Overhead, "hash": s.HashSize})
 		}
 		out.Emit(map[string]any{"ev": "Suites", "weak": req.Weak,
-			"supported": suitesJ(tls.VerifSupportedCipherSuites()),
-			"std":       suitesJ(tls.VerifCipherSuites()),
+			"supported": suitesJ(tls.VerifRecordSupportedCipherSuites()),
+			"std":       suitesJ(tls.VerifRecordCipherSuites()),
 			"tls13":     t13})
 		return nil
 	})
